@@ -20,6 +20,18 @@ pub fn run(op: &str, a: &[&str]) -> Option<Out> {
             Ok(p) => { let sec = p.config.security_bits(); crate::ops_proof::verify_layout(a[0], &p, sec) }
             Err(e) => Out::Err(e),
         },
+        // roundtrip <layout> <path> : serialise/deserialise the verifier-side proof, compare value and verdict
+        "roundtrip" => match load(a[1]) {
+            Ok(p) => {
+                let js = serde_json::to_string(&p).unwrap();
+                let q: swiftness_stark::types::StarkProof = match serde_json::from_str(&js) { Ok(q) => q, Err(e) => return Some(Out::Err(format!("deserialize {}", e))) };
+                let sec = p.config.security_bits();
+                let v1 = match crate::ops_proof::verify_layout(a[0], &p, sec) { Out::Ok(s) => format!("ok:{}", s.replace(' ', ":")), Out::Err(_) => "err".into() };
+                let v2 = match crate::ops_proof::verify_layout(a[0], &q, sec) { Out::Ok(s) => format!("ok:{}", s.replace(' ', ":")), Out::Err(_) => "err".into() };
+                Out::Ok(format!("{} {} {}", (p == q) as u8, v1, v2))
+            }
+            Err(e) => Out::Err(e),
+        },
         _ => return None,
     })
 }
